@@ -1254,6 +1254,7 @@ class ThirdCoreHexToFullCoreChanger(GeometryChanger):
     def __init__(self, cs=None):
         GeometryChanger.__init__(self, cs)
         self.listOfVolIntegratedParamsToScale = []
+        self._converted = False
 
     def _scaleBlockVolIntegratedParams(self, b, direction):
         if direction == "up":
@@ -1374,6 +1375,7 @@ class ThirdCoreHexToFullCoreChanger(GeometryChanger):
         self._sourceReactor.core.symmetry = geometry.SymmetryType(
             geometry.DomainType.FULL_CORE, geometry.BoundaryType.NO_SYMMETRY
         )
+        self._converted = True
 
     def restorePreviousGeometry(self, r=None):
         """Undo the changes made by convert by going back to 1/3 core.
@@ -1389,8 +1391,9 @@ class ThirdCoreHexToFullCoreChanger(GeometryChanger):
         """
         r = r or self._sourceReactor
 
-        # remove the assemblies that were added when the conversion happened.
-        if bool(self._newAssembliesAdded):
+        # remove the assemblies that were added when the conversion happened (there are none if
+        # the third core held only the central assembly).
+        if self._converted:
             for a in self._newAssembliesAdded:
                 r.core.removeAssembly(a, discharge=False)
 
@@ -1406,6 +1409,7 @@ class ThirdCoreHexToFullCoreChanger(GeometryChanger):
             if a is not None:
                 for b in a:
                     self._scaleBlockVolIntegratedParams(b, "down")
+        self._converted = False
         self.reset()
 
 
